@@ -340,6 +340,12 @@ func c10(c *hx.Ctx) {
 				b = cat(uv(0), uv(uint64(len(pb))), pb)
 			}
 			class = "alias-of-valid-id"
+			// the embedded key, decoded on its own from the same non-canonical bytes, is the same key
+			if _, n1, ok := refUvarint(b); ok {
+				if _, n2, ok := refUvarint(b[n1:]); ok {
+					c10Decoded(c, b[n1+n2:], key)
+				}
+			}
 		default: // embedded protobuf irregularities
 			ty := uint64(1)
 			if c.Rng.Intn(5) == 0 {
@@ -374,6 +380,7 @@ func c10(c *hx.Ctx) {
 			c10Text(c, b58.Encode(b), "text-of-"+class)
 		}
 	}
+	c10Sweep(c, pks[0])
 	// text
 	nText := c.N - nValid - nMut
 	for i := 0; i < nText; i++ {
@@ -419,4 +426,118 @@ func c10(c *hx.Ctx) {
 		}
 		c10Text(c, s, class)
 	}
+}
+
+// c10Sweep: for total lengths L the byte string [code][byte(L-2)][L-2 bytes], i.e. the
+// boundary where a (possibly continuation) length byte coincides with the
+// number of remaining bytes, plus the properly encoded and non-minimal length
+// varints for the same digest, with random filler and with a valid PublicKey
+// padded to that size.  Quick tier: boundaries + a sample; thorough: every L.
+func c10Sweep(c *hx.Ctx, key []byte) {
+	var ls []int
+	if c.Tier == "thorough" {
+		for l := 0; l <= 300; l++ {
+			ls = append(ls, l)
+		}
+		ls = append(ls, 16383, 16384, 16385, 16386, 16387)
+	} else {
+		ls = []int{0, 1, 2, 3, 38, 128, 129, 130, 131, 132, 255, 256, 257, 258, 259, 300, 16386}
+		for i := 0; i < 14; i++ {
+			ls = append(ls, 130+c.Rng.Intn(128))
+		}
+		for i := 0; i < 4; i++ {
+			ls = append(ls, c.Rng.Intn(130))
+		}
+	}
+	for _, l := range ls {
+		n := l - 2
+		if n < 0 {
+			c10Bytes(c, make([]byte, l), "sweep-short")
+			continue
+		}
+		// filler: random, or a valid PublicKey proto padded with an unknown bytes field to n bytes
+		fill := c.RandBytes(n)
+		class := "random"
+		if c.Rng.Intn(2) == 0 {
+			if cand, ok := padProto(cat(pbVarint(1, 1), pbBytes(2, key)), n); ok {
+				fill, class = cand, "padded-key"
+			}
+		}
+		code := byte(0)
+		if c.Rng.Intn(6) == 0 {
+			code = []byte{0x12, 0x01, 0x7f}[c.Rng.Intn(3)]
+		}
+		// single length byte equal to the remaining length (a continuation byte from 128 on)
+		c10Bytes(c, cat([]byte{code, byte(n)}, fill), "sweep-length-byte-"+class)
+		// the proper varint, and a non-minimal one
+		c10Bytes(c, cat([]byte{code}, uv(uint64(n)), fill), "sweep-proper-varint-"+class)
+		if l <= 300 {
+			c10Bytes(c, cat([]byte{code}, nonMinimal(uint64(n), 1+c.Rng.Intn(2)), fill), "sweep-nonminimal-varint-"+class)
+			// continuation length byte followed by the byte that makes the varint value right or wrong
+			if n >= 1 {
+				c10Bytes(c, cat([]byte{code, 0x80 | byte(n&0x7f), byte(n >> 7)}, fill), "sweep-two-byte-varint-"+class)
+			}
+			if c.Rng.Intn(3) == 0 {
+				c10Text(c, b58.Encode(cat([]byte{code, byte(n)}, fill)), "text-of-sweep")
+			}
+		}
+	}
+}
+
+// c10Decoded: a PublicKey decoded from an equivalent non-canonical encoding is
+// the same key as the one built from the raw bytes: same raw form, Equals,
+// canonical re-marshalling, same derived id.
+func c10Decoded(c *hx.Ctx, enc []byte, key []byte) {
+	desc := map[string]any{"kind": "decoded-pub", "encoding": hx.Hex(enc), "key": hx.Hex(key)}
+	var pk crypto.PubKey
+	var err error
+	var p bool
+	o := guarded(c, "UnmarshalPublicKey", desc, [][]byte{enc}, func() string {
+		p, _ = hx.Catch(func() { pk, err = crypto.UnmarshalPublicKey(enc) })
+		var raw []byte
+		if !p && err == nil {
+			raw, _ = pk.Raw()
+		}
+		return obsBytes(p, raw, err, extractClass(err))
+	})
+	c.Case(hx.App("UnmarshalPub", hx.Bytes(enc), o), desc)
+	c.Class("decoded-pub")
+	if p || err != nil {
+		c.Failf("decoded-key-differs", desc, "equivalent encoding of a public key rejected: panic=%v err=%v", p, err)
+		return
+	}
+	ref, _ := crypto.UnmarshalEd25519PublicKey(key)
+	raw, _ := pk.Raw()
+	m1, _ := crypto.MarshalPublicKey(pk)
+	m2, _ := crypto.MarshalPublicKey(ref)
+	id1, _ := peer.IDFromPublicKey(pk)
+	id2, _ := peer.IDFromPublicKey(ref)
+	if !bytes.Equal(raw, key) || !pk.Equals(ref) || !ref.Equals(pk) || !bytes.Equal(m1, m2) || id1 != id2 || !id2.MatchesPublicKey(pk) {
+		c.Failf("decoded-key-differs", desc, "key decoded from an equivalent encoding differs from the key built from its raw bytes")
+	}
+	c.Case(hx.App("MarshalPub", hx.Bytes(raw), hx.Bytes(m1)), desc)
+	c.Case(hx.App("FromPub", hx.Bytes(raw), hx.Bytes([]byte(id1))), desc)
+}
+
+// padProto extends a protobuf message with unknown fields to exactly n bytes.
+func padProto(base []byte, n int) ([]byte, bool) {
+	rem := n - len(base)
+	if rem == 0 {
+		return base, true
+	}
+	if rem < 2 {
+		return nil, false
+	}
+	for lb := 1; lb <= 3; lb++ {
+		p := rem - 1 - lb
+		if p >= 0 && len(uv(uint64(p))) == lb {
+			return cat(base, pbBytes(5, make([]byte, p))), true
+		}
+	}
+	if rem >= 4 { // the gap between one- and two-byte length varints: spend two bytes on a varint field first
+		if r, ok := padProto(cat(base, []byte{0x18, 0x01}), n); ok {
+			return r, true
+		}
+	}
+	return nil, false
 }
